@@ -85,14 +85,9 @@ theorem repo_failure_iff_last_attempt_failed (s0 : Store) (h0 : Consistent s0)
   | success => simp
   | failure e2 => simp
 
-/-- Full statement (FALSE of the code, see `last_success_moves_without_an_answer`): `last_success`
-is the time of the most recent exchange in which the parent answered positively.
-
-What holds: `last_success` is the time of the most recent exchange *the code records as a
-success*; later failed attempts do not move it.  `send_revoke_requests` records a success also
-when there was no revocation request to send (`ca_sync_parent` with only certificate requests
-pending calls it first) – without the parent having been asked anything. -/
-theorem parent_last_success_is_last_successful_partial (s0 : Store) (h0 : Consistent s0)
+/-- `last_success` is the time of the most recent exchange *recorded as a success*; later failed
+attempts do not move it. -/
+theorem parent_last_success_is_last_recorded_success (s0 : Store) (h0 : Consistent s0)
     (pre post : List Ev) (e : Ev) (ca p : String) (x : Exchange)
     (he : e.parentAttempt? = some (ca, p, x)) (hs : x.result = .success)
     (hpost : ∀ e' ∈ post, e'.parentSuccess ca p = false ∧ e'.removesParent ca p = false) :
@@ -106,38 +101,92 @@ theorem parent_last_success_is_last_successful_partial (s0 : Store) (h0 : Consis
     (fun e' he' o => parentProj_keeps_lastSuccess e' ca p o (hpost e' he').1 (hpost e' he').2), hst]
   simpa using hx hs
 
-/-- Under the hypothesis that no vacuous "success" of the revocation phase follows (every later
-`send_revoke_requests` for this parent either had a request to send or failed), `last_success` is
-the time of the most recent exchange in which the parent really answered positively. -/
-theorem parent_last_success_is_last_answer (s0 : Store) (h0 : Consistent s0)
+/-- **Full statement**: `last_success` is the time of the most recent exchange in which the parent
+answered positively – as long as the entry is not removed, no later event answers positively
+and no later event records a success without an answer.  The last condition is a fact about the
+CA manager since 0cf51f5b, not an assumption about the environment: a synchronisation never
+produces such an event (`sync_records_no_vacuous_success`), and the only call that still can – the
+best-effort revocation of `ca_parent_remove` / `delete_ca` with no key to revoke – removes the
+entry in the same call (`parent_removal_removes_what_it_recorded`). -/
+theorem parent_last_success_is_last_successful (s0 : Store) (h0 : Consistent s0)
     (pre post : List Ev) (e : Ev) (ca p : String) (x : Exchange)
     (he : e.parentAttempt? = some (ca, p, x)) (hs : x.result = .success)
     (hpost : ∀ e' ∈ post, e'.parentAnswered ca p = false ∧ e'.removesParent ca p = false ∧
-      (e'.parentSuccess ca p = true → e'.parentAnswered ca p = true)) :
+      e'.vacuousSuccess ca p = false) :
     ((run s0 (pre ++ e :: post)).parent? ca p).bind (·.lastSuccess) = some x.time := by
-  apply parent_last_success_is_last_successful_partial s0 h0 pre post e ca p x he hs
+  apply parent_last_success_is_last_recorded_success s0 h0 pre post e ca p x he hs
   intro e' he'
   obtain ⟨h1, h2, h3⟩ := hpost e' he'
   refine ⟨?_, h2⟩
   cases hps : e'.parentSuccess ca p with
   | false => rfl
-  | true => rw [h3 hps] at h1; cases h1
+  | true => simp [Ev.vacuousSuccess, hps, h1] at h3
+
+/-- `ca_sync_parent` never records a success without an answer: with nothing to revoke the
+revocation phase is skipped. -/
+theorem sync_records_no_vacuous_success (ca p uri : String) (pending : Bool) (nRevokes : Nat)
+    (revokes certs : Except String Unit) (list : Except String Entitlements) (now : Nat)
+    (ca' p' : String) :
+    ∀ e ∈ syncParentEvents ca p uri pending nRevokes revokes certs list now,
+      e.vacuousSuccess ca' p' = false := by
+  intro e he
+  unfold syncParentEvents at he
+  cases pending with
+  | false =>
+    simp only [Bool.false_eq_true, if_false, List.mem_singleton] at he
+    subst he
+    simp [Ev.vacuousSuccess, Ev.parentAnswered]
+  | true =>
+    simp only [if_true] at he
+    by_cases hn : nRevokes = 0
+    · simp only [hn, if_true, List.mem_singleton] at he
+      subst he
+      simp [Ev.vacuousSuccess, Ev.parentAnswered]
+    · simp only [hn, if_false] at he
+      have hpos : nRevokes > 0 := Nat.pos_of_ne_zero hn
+      cases revokes with
+      | error err =>
+        simp only [List.mem_singleton] at he
+        subst he
+        simp [Ev.vacuousSuccess, Ev.parentAnswered, hpos]
+      | ok u =>
+        cases u
+        simp only [List.mem_cons, List.mem_singleton, List.not_mem_nil, or_false] at he
+        rcases he with rfl | rfl
+        · simp [Ev.vacuousSuccess, Ev.parentAnswered, hpos]
+        · simp [Ev.vacuousSuccess, Ev.parentAnswered]
+
+/-- Whatever the best-effort revocation of a removal records, the removal takes the entry away. -/
+theorem parent_removal_removes_what_it_recorded (s0 : Store) (h0 : Consistent s0) (pre : List Ev)
+    (ca p uri : String) (n : Nat) (r : Except String Unit) (now : Nat) :
+    (run s0 (pre ++ parentRemoveEvents ca p uri n r now)).parent? ca p = none := by
+  have hc1 := consistent_run s0 h0 pre
+  rw [run_append, parent?_run _ hc1]
+  cases r with
+  | ok u => cases u; simp [parentRemoveEvents, parentProj]
+  | error err => simp [parentRemoveEvents, parentProj]
 
 example : ∀ e' ∈ [Ev.parentList "c" "p" "u" true (.error "x") 9, Ev.parentRevokes "c" "q" "u" 0 (.ok ()) 10,
       Ev.parentRevokes "c" "p" "u" 2 (.error "y") 11],
     e'.parentAnswered "c" "p" = false ∧ e'.removesParent "c" "p" = false ∧
-      (e'.parentSuccess "c" "p" = true → e'.parentAnswered "c" "p" = true) := by decide
+      e'.vacuousSuccess "c" "p" = false := by decide
 
-/-- **F-C19-2.** The child has a certificate request pending (no revocation request) and the
-parent refuses it (the child was removed there, or the parent is gone): `ca_sync_parent` first
-records the success of sending *no* revocation request, then the failure – `last_success` moves
-to the time of a synchronisation in which nothing succeeded. -/
-theorem last_success_moves_without_an_answer :
-    let evs := [Ev.parentList "b" "a" "u" true (.ok [("0", [1])]) 5] ++
-      syncParentEvents "b" "a" "u" true 0 (.ok ()) (.error "ca-parent-sync") (.ok []) 9
-    (evs.all fun e => !(e.parentAnswered "b" "a") || decide (e.parentAttempt?.map (·.2.2.time) = some 5)) = true ∧
+/-- **F-C19-2, counter-model of the pinned tree** (before 0cf51f5b; no longer the code).  There
+`ca_sync_parent` with only a certificate request pending first recorded the success of sending *no*
+revocation request, then the refusal of the certificate request: `last_success` moved to the time
+of a synchronisation in which nothing succeeded.  The event list below is what the pinned
+`send_requests` produced; `syncParentEvents` (the code as it is) no longer produces it. -/
+theorem pinned_last_success_moved_without_an_answer :
+    let pinnedSync : List Ev := [.parentRevokes "b" "a" "u" 0 (.ok ()) 9, .parentCerts "b" "a" "u" (.error "ca-parent-sync") 9]
+    let evs := [Ev.parentList "b" "a" "u" true (.ok [("0", [1])]) 5] ++ pinnedSync
+    (pinnedSync.any fun e => e.vacuousSuccess "b" "a") = true ∧
     ((run Store.empty evs).parent? "b" "a").bind (·.lastSuccess) = some 9 ∧
-    ((run Store.empty evs).parent? "b" "a").bind ParentStatus.optFailure = some "ca-parent-sync" := by
+    ((run Store.empty evs).parent? "b" "a").bind ParentStatus.optFailure = some "ca-parent-sync" ∧
+    -- the code as it is: the same synchronisation leaves last_success at the last answer
+    (let now := [Ev.parentList "b" "a" "u" true (.ok [("0", [1])]) 5] ++
+        syncParentEvents "b" "a" "u" true 0 (.ok ()) (.error "ca-parent-sync") (.ok []) 9
+     ((run Store.empty now).parent? "b" "a").bind (·.lastSuccess) = some 5 ∧
+     ((run Store.empty now).parent? "b" "a").bind ParentStatus.optFailure = some "ca-parent-sync") := by
   decide
 
 theorem repo_last_success_is_last_successful (s0 : Store) (h0 : Consistent s0)
@@ -215,7 +264,7 @@ example : (Ev.parentList "c" "p" "u" true (.error "x") 9).parentAttempt? =
 
 /-! ## published_list_is_server_content
 
-Full statement (FALSE of the code, see `published_list_is_server_content_fails`):
+Full statement (FALSE of the code, see `published_list_is_server_content_fails`, F-C19-3):
 
   for every history of synchronisations and out-of-band events at the server (publisher removed,
   publisher added again), after the last successful synchronisation the list of published objects
@@ -227,7 +276,13 @@ changes *only* through deltas this CA sent and got a success reply for (no `publ
 multiset of files at every moment – also between synchronisations, across failures and restarts –
 because the shadow list replays exactly the deltas the server applied
 (`update_published_replays_server`).  The delta being computed against the server's list reply
-(`diffDelta`) is what makes the server accept it; it is not needed for the equality itself. -/
+(`diffDelta`) is what makes the server accept it; it is not needed for the equality itself.  The
+shadow list is never reconciled with the list reply, which is why an out-of-band loss is never
+repaired (the same root cause shows after a crash between the server accepting a delta and the
+status write, F-C08-2).
+
+Without any hypothesis (`published_list_has_no_duplicates`, full since 7b4aa6c7): no URI is ever
+listed twice. -/
 
 /-- One accepted delta: the shadow list does to itself what the server did to its content. -/
 theorem update_published_replays_server (p m m' : List File) (d : List DeltaEl)
@@ -259,42 +314,86 @@ example :
     w.server = some [("c", "2"), ("m", "3")] ∧
       (w.server.map fun m => inSyncB (w.store.repo "a").published m) = some true := by decide
 
-/-- **F-C19-1.** The full statement fails: the server loses the publisher's content (publisher
-removed and added again), the next synchronisation finds an empty list and publishes everything
-again; `update_published`'s `Publish` arm pushes without removing the entry of the same URI, so
-the shown list has every object twice although the last exchange is a success. -/
+/-- **F-C19-3.** The full statement fails: the server loses the publisher's content (publisher
+removed and added again) and an object is dropped in the meantime.  The next synchronisation finds
+an empty list and publishes what there is now; the dropped object is never withdrawn (the server
+does not list it), so it stays in the shown list for good although the last exchange is a
+success. -/
 theorem published_list_is_server_content_fails :
     ∃ hist : List WEv,
       let w := wrun "a" "u" {} hist
       ((w.store.repo "a").lastExchange.map (·.result)) = some .success ∧
-      w.server = some [("mft", "1"), ("crl", "1")] ∧
-      (w.store.repo "a").published = [("mft", "1"), ("crl", "1"), ("mft", "1"), ("crl", "1")] ∧
-      (w.server.map fun m => inSyncB (w.store.repo "a").published m) = some false :=
-  ⟨[.sync [("mft", "1"), ("crl", "1")] 1, .publisherRemoved, .publisherAdded,
-    .sync [("mft", "1"), ("crl", "1")] 2], by decide⟩
-
-/-- The same loss when an object was dropped in the meantime: besides the duplicates a *stale*
-entry stays in the list for good (the server never lists it again, so it is never withdrawn).
-Removing the entry of the same URI before the push (`retain` before `push`) repairs the
-duplicates but not this. -/
-theorem published_list_keeps_stale_entry_after_loss :
-    ∃ hist : List WEv,
-      let w := wrun "a" "u" {} hist
-      ((w.store.repo "a").lastExchange.map (·.result)) = some .success ∧
       w.server = some [("mft", "2")] ∧
-      (w.store.repo "a").published = [("mft", "1"), ("roa", "1"), ("mft", "2")] :=
+      (w.store.repo "a").published = [("roa", "1"), ("mft", "2")] ∧
+      (w.server.map fun m => inSyncB (w.store.repo "a").published m) = some false :=
   ⟨[.sync [("mft", "1"), ("roa", "1")] 1, .publisherRemoved, .publisherAdded,
     .sync [("mft", "2")] 2], by decide⟩
 
-/-- Under the hypothesis "published URIs are not already in the list" (every `Publish` element
-names a URI the list does not hold at that point) no URI is ever listed twice. -/
-theorem published_list_no_duplicates_partial (p : List File) (d : List DeltaEl)
-    (h : (p.map (·.1)).Nodup) (hf : freshPublishes p d = true) :
-    ((applyDelta p d).map (·.1)).Nodup :=
-  nodup_applyDelta p d h hf
+/-- The loss alone (nothing dropped) is repaired by the next synchronisation since 7b4aa6c7:
+everything is published again and replaces the entries of the same URI. -/
+theorem published_list_recovers_from_loss_without_drop :
+    let w := wrun "a" "u" {} [.sync [("mft", "1"), ("crl", "1")] 1, .publisherRemoved, .publisherAdded,
+      .sync [("mft", "1"), ("crl", "1")] 2]
+    w.server = some [("mft", "1"), ("crl", "1")] ∧
+    (w.store.repo "a").published = [("mft", "1"), ("crl", "1")] := by decide
 
-example : freshPublishes [("a", "1"), ("b", "1")] [.update "a" "2", .withdraw "b", .publish "c" "1"] = true ∧
-    freshPublishes [("a", "1")] [.publish "a" "1"] = false := by decide
+/-- **Full**: no URI is ever listed twice, whatever deltas are applied (since 7b4aa6c7 every arm
+that pushes removes the entry of the same URI first). -/
+theorem published_list_has_no_duplicates (p : List File) (d : List DeltaEl)
+    (h : (p.map (·.1)).Nodup) : ((applyDelta p d).map (·.1)).Nodup :=
+  nodup_applyDelta p d h
+
+/-- In every reachable state: starting from the empty store the shown list of every CA is free
+of duplicates after any history. -/
+theorem published_list_never_has_duplicates (evs : List Ev) (ca : String) :
+    (((run Store.empty evs).repo ca).published.map (·.1)).Nodup := by
+  rw [repo_run _ consistent_empty]
+  have key : ∀ (l : List Ev) (r : RepoStatus), (r.published.map (·.1)).Nodup →
+      ((l.foldl (fun r e => repoProj e ca r) r).published.map (·.1)).Nodup := by
+    intro l
+    induction l with
+    | nil => intro r hr; exact hr
+    | cons e t ih =>
+      intro r hr
+      simp only [List.foldl_cons]
+      apply ih
+      cases e with
+      | repoList ca' uri reply now =>
+        cases reply with
+        | ok u => cases u; simp only [repoProj]; split <;> simpa [RepoStatus.setLastUpdated] using hr
+        | error err => simp only [repoProj]; split <;> simpa [RepoStatus.setFailure] using hr
+      | repoDelta ca' uri d reply now =>
+        cases reply with
+        | ok u =>
+          cases u
+          simp only [repoProj]
+          split
+          · exact nodup_applyDelta r.published d hr
+          · exact hr
+        | error err => simp only [repoProj]; split <;> simpa [RepoStatus.setFailure] using hr
+      | caRemove ca' =>
+        simp only [repoProj]
+        split
+        · exact List.nodup_nil
+        · exact hr
+      | parentList ca' p' uri ex reply now => cases reply <;> exact hr
+      | parentRevokes ca' p' uri sent reply now => cases reply <;> exact hr
+      | parentCerts ca' p' uri reply now => cases reply <;> exact hr
+      | childRequest ca' c agent outcome now => cases outcome <;> exact hr
+      | childSuspended ca' c now => exact hr
+      | parentRemove ca' p' => exact hr
+      | childRemove ca' c => exact hr
+      | restart => exact hr
+  exact key evs _ List.nodup_nil
+
+/-- **F-C19-1, counter-model of the pinned tree** (before 7b4aa6c7; no longer the code): the
+`Publish` arm pushed without removing the entry of the same URI, so after the loss every object was
+listed twice.  `applyElPinned` is that arm; `applyEl` (the code as it is) gives no duplicate. -/
+theorem pinned_publish_arm_listed_duplicates :
+    let shadow : List File := [("mft", "1"), ("crl", "1")]
+    let again : List DeltaEl := [.publish "mft" "1", .publish "crl" "1"]
+    again.foldl applyElPinned shadow = [("mft", "1"), ("crl", "1"), ("mft", "1"), ("crl", "1")] ∧
+    applyDelta shadow again = [("mft", "1"), ("crl", "1")] := by decide
 
 /-! ## child_last_request
 
@@ -513,14 +612,14 @@ are what `Status.lean` models.  A change of a setter, of the arm of a reply on w
 called, or of the order cache / storage in the store breaks these. -/
 
 /-- `src/api/ca.rs`: what every setter writes – a failure touches nothing but `last_exchange`
-(and the child's suspension marker); `update_published`: `Publish` pushes, `Update` retains then
-pushes, `Withdraw` retains. -/
+(and the child's suspension marker); `update_published`: `Publish` and `Update` retain then push,
+`Withdraw` retains. -/
 theorem source_status_writes_as_modelled : KM.Generated.statusWrites = [
   ("ParentStatus", "set_failure", ["set:last_exchange:Failure"]),
   ("ParentStatus", "set_entitlements", ["call:set_last_updated", "clone_from:classes", "set:all_resources"]),
   ("ParentStatus", "set_last_updated", ["set:last_exchange:Success", "set:last_success"]),
   ("RepoStatus", "set_failure", ["set:last_exchange:Failure"]),
-  ("RepoStatus", "update_published", ["set:last_exchange:Success", "arm:Publish", "push:published", "arm:Update", "retain:published", "push:published", "arm:Withdraw", "retain:published", "set:last_success"]),
+  ("RepoStatus", "update_published", ["set:last_exchange:Success", "arm:Publish", "retain:published", "push:published", "arm:Update", "retain:published", "push:published", "arm:Withdraw", "retain:published", "set:last_success"]),
   ("RepoStatus", "set_last_updated", ["set:last_exchange:Success", "set:last_success"]),
   ("ChildStatus", "set_success", ["set:last_exchange:Success", "set:last_success", "set:suspended:None"]),
   ("ChildStatus", "set_failure", ["set:last_exchange:Failure", "set:suspended:None"]),
